@@ -192,7 +192,7 @@ class Monitor:
                 shard.inc('chunk:' + name, rec.png.chunks.count(name))
             # differential: same call, generic encoder forced
             special = sorted(set(m for m in rec.methods if m != GENERIC))
-            if special:
+            if special and not os.environ.get('VERIF_C15_NODIFF'):   # (the switch exists only to validate the pixel oracle on its own)
                 saved = self_.png_method_dict
                 generic = getattr(self_, GENERIC)
                 self_.png_method_dict = {bd: {fs: {m: generic for m in (0, 1)} for fs in (0, 1)} for bd in (0, 1, 2, 4)}
